@@ -1,22 +1,322 @@
 //go:build verif
 
+// Correspondence driver and system-level explorer for C01
+// (DNSSEC: validating clients get only authenticated data; AD implies authentic).
+//
+//	signer check …   dnssec.ValidateSigner                         vs model + label-wise oracle
+//	rrsig verify …   dnssec.VerifyRRSIG on a realised, tampered message (real keys, real signatures;
+//	                 the sigValid truth table comes from the LIBRARY verifier dns.RRSIG.Verify)
+//	ds verify …      dnssec.VerifyDS / VerifyDSAnchoredWithWork    (digest truth table from DNSKEY.ToDS)
+//	wild verify …    dnssec.VerifyWildcardAnswerForZoneWithWork    (NSEC coverage table from the oracle's own ordering)
+//	ad edns|tomsg|chase|pipe …   the AD bit through edns.ResponseWriter (Msg and wire), CacheEntry.ToMsg /
+//	                 serveWire, searchAdditionalAnswer, and the real edns+cache pair
+//	err ede …        dnsutil.ErrorToEDE + SetRcodeWithEDE (what DNSHandler.handle does with an error)
+//	l3 …             the real edns+cache+resolver pipeline against a scripted signed hierarchy (oracle only)
 package main
 
 import (
-	"crypto/rand"
-	"crypto/rsa"
-	"crypto/x509"
-	"encoding/base64"
 	"fmt"
+	"go/ast"
+	"go/parser"
+	"go/token"
 	"os"
+	"path/filepath"
+	"strings"
+	"time"
+
+	"github.com/miekg/dns"
+	"github.com/semihalev/sdns/internal/dnsutil"
+	"github.com/semihalev/sdns/internal/verif/vlib"
+	"github.com/semihalev/sdns/middleware/resolver/dnssec"
 )
 
-func main() {
-	if len(os.Args) > 1 && os.Args[1] == "findpairs" {
-		findPairs()
-		for i := 0; i < 2; i++ {
-			k, _ := rsa.GenerateKey(rand.Reader, 1024)
-			fmt.Printf("%q,\n", base64.StdEncoding.EncodeToString(x509.MarshalPKCS1PrivateKey(k)))
+func exec(op string) vlib.Res {
+	f := strings.Fields(op)
+	if len(f) < 2 {
+		return vlib.Res{Impl: "bad-op"}
+	}
+	switch f[0] + " " + f[1] {
+	case "signer check":
+		return execSigner(f)
+	case "rrsig verify":
+		return execRRSIG(f)
+	case "ds verify":
+		return execDS(f)
+	case "wild verify":
+		return execWild(f)
+	case "ad edns":
+		return execAdEdns(f)
+	case "ad tomsg":
+		return execAdToMsg(f)
+	case "ad chase":
+		return execAdChase(f)
+	case "ad pipe":
+		return execAdPipe(f)
+	case "err ede":
+		return execErr(f)
+	case "l3 new":
+		return sysNew(f)
+	case "l3 tamper":
+		return sysTamper(f)
+	case "l3 anchors":
+		return sysAnchors(f)
+	case "l3 q":
+		return sysQuery(f)
+	}
+	return vlib.Res{Impl: "bad-op"}
+}
+
+func tf(r *vlib.R) string { return vlib.B(r.Bool()) }
+
+func gen(r *vlib.R, n int, tier string, emit func(string)) {
+	now := time.Now().Unix()
+	em := func(op, tags string) {
+		if tags == "" {
+			tags = "t:none"
+		}
+		emit(op + " T=" + strings.ReplaceAll(tags, ",", "+"))
+	}
+	// system level first: about a quarter of the budget in ops, most of the wall time
+	l3ops := n / 4
+	for l3ops > 0 {
+		l3ops -= genL3(r, emit)
+	}
+	if sys != nil {
+		sys.close()
+		sys = nil
+	}
+	rest := n - n/4
+	for rest > 0 {
+		switch k := r.Intn(20); {
+		case k < 9:
+			op, tags := genRRSIG(r, now)
+			em(op, tags)
+		case k < 11:
+			emit(genSigner(r))
+		case k < 14:
+			op, tags := genDS(r)
+			em(op, tags)
+		case k < 16:
+			emit(genWild(r))
+		case k < 17:
+			opt := r.Bool()
+			do := opt && r.Bool()
+			wire := r.Bool()
+			emit(fmt.Sprintf("ad edns %s %s %s %s %s %s %s %s %s", tf(r), vlib.B(do), tf(r), vlib.B(opt),
+				vlib.Pick(r, []string{"udp", "udp", "tcp"}), vlib.Pick(r, []string{"msg", "wire"}), vlib.B(r.Chance(3, 4)), vlib.B(!wire && r.Chance(1, 4)), vlib.B(wire)))
+		case k < 18:
+			if r.Bool() {
+				emit(fmt.Sprintf("ad tomsg %s %s %s", tf(r), tf(r), vlib.Pick(r, []string{"msg", "wire"})))
+			} else {
+				hops := make([]string, 1+r.Intn(3))
+				for i := range hops {
+					hops[i] = vlib.B(r.Chance(2, 3))
+				}
+				emit(fmt.Sprintf("ad chase %s %s", vlib.B(r.Chance(3, 4)), strings.Join(hops, ",")))
+			}
+		case k < 19:
+			opt := r.Bool()
+			do := opt && r.Bool()
+			emit(fmt.Sprintf("ad pipe %s %s %s %s %s %s %s %s", vlib.B(r.Chance(3, 4)), tf(r), vlib.B(do), tf(r), vlib.B(opt),
+				vlib.Pick(r, []string{"udp", "tcp"}), vlib.Pick(r, []string{"msg", "wire"}), vlib.Pick(r, []string{"msg", "wire"})))
+		default:
+			opt := r.Bool()
+			emit(fmt.Sprintf("err ede %s %s %s", vlib.Pick(r, errOrder), vlib.B(opt), vlib.B(opt && r.Bool())))
+		}
+		rest--
+	}
+}
+
+// ------------------------------------------------------------------ facts
+
+func repoDir() string {
+	if d := os.Getenv("VERIF_REPO"); d != "" {
+		return d
+	}
+	return "/repo"
+}
+
+// posOfCall: position of the first call whose selector name is `name` inside n (0 = none).
+func posOfCall(n ast.Node, name string) token.Pos {
+	var pos token.Pos
+	ast.Inspect(n, func(x ast.Node) bool {
+		if pos != 0 {
+			return false
+		}
+		if c, ok := x.(*ast.CallExpr); ok {
+			if s, ok := c.Fun.(*ast.SelectorExpr); ok && s.Sel.Name == name {
+				pos = c.Pos()
+			}
+		}
+		return true
+	})
+	return pos
+}
+
+func hasBranch(n ast.Node, tok token.Token) bool {
+	found := false
+	ast.Inspect(n, func(x ast.Node) bool {
+		if b, ok := x.(*ast.BranchStmt); ok && b.Tok == tok {
+			found = true
+		}
+		return !found
+	})
+	return found
+}
+
+func returnsSel(n ast.Node, sel string) bool {
+	found := false
+	ast.Inspect(n, func(x ast.Node) bool {
+		if r, ok := x.(*ast.ReturnStmt); ok {
+			for _, e := range r.Results {
+				if s, ok := e.(*ast.SelectorExpr); ok && s.Sel.Name == sel {
+					found = true
+				}
+			}
+		}
+		return !found
+	})
+	return found
+}
+
+// shapeFacts reads middleware/resolver/resolver.go of the tree under check.
+func shapeFacts(out map[string]any) {
+	for _, fn := range []string{"answer", "authority", "validateDelegation"} {
+		out["shape_signer_checked_before_findds_"+fn] = false
+		out["shape_anchor_gate_"+fn] = false
+	}
+	out["shape_verifydnssec_anchors_own_dnskey_rrset"] = false
+	fset := token.NewFileSet()
+	file, err := parser.ParseFile(fset, filepath.Join(repoDir(), "middleware/resolver/resolver.go"), nil, 0)
+	if err != nil {
+		out["shape_parse_error"] = err.Error()
+		return
+	}
+	for _, d := range file.Decls {
+		fd, ok := d.(*ast.FuncDecl)
+		if !ok || fd.Recv == nil || fd.Body == nil {
+			continue
+		}
+		name := fd.Name.Name
+		switch name {
+		case "answer", "authority", "validateDelegation":
+			// (1) in the loop over candidate signers: `if err := dnssec.ValidateSigner(...); err != nil { …; continue }`
+			//     comes before the first findDS / verifyDNSSEC / isZoneSecure call of the loop body
+			ast.Inspect(fd.Body, func(x ast.Node) bool {
+				rs, ok := x.(*ast.RangeStmt)
+				if !ok {
+					return true
+				}
+				if id, ok := rs.X.(*ast.Ident); !ok || id.Name != "signers" {
+					return true
+				}
+				var gate token.Pos
+				for _, st := range rs.Body.List {
+					if is, ok := st.(*ast.IfStmt); ok && is.Init != nil && posOfCall(is.Init, "ValidateSigner") != 0 && hasBranch(is.Body, token.CONTINUE) {
+						gate = is.Pos()
+						break
+					}
+				}
+				good := gate != 0
+				for _, callee := range []string{"findDS", "verifyDNSSEC", "isZoneSecure"} {
+					if p := posOfCall(rs.Body, callee); p != 0 && (gate == 0 || p < gate) {
+						good = false
+					}
+				}
+				if posOfCall(rs.Body, "findDS") == 0 {
+					good = false
+				}
+				out["shape_signer_checked_before_findds_"+name] = good
+				return false
+			})
+			// (2) `if r.dnssec && !r.hasTrustAnchors() { return …ErrTrustAnchorsUnavailable }` precedes the
+			//     first findRRSIGSigners call (nothing is accepted before it)
+			var gate token.Pos
+			ast.Inspect(fd.Body, func(x ast.Node) bool {
+				is, ok := x.(*ast.IfStmt)
+				if !ok || gate != 0 {
+					return gate == 0
+				}
+				neg := false
+				ast.Inspect(is.Cond, func(y ast.Node) bool {
+					if u, ok := y.(*ast.UnaryExpr); ok && u.Op == token.NOT && posOfCall(u.X, "hasTrustAnchors") != 0 {
+						neg = true
+					}
+					return true
+				})
+				if neg && returnsSel(is.Body, "ErrTrustAnchorsUnavailable") {
+					gate = is.Pos()
+				}
+				return true
+			})
+			first := posOfCall(fd.Body, "findRRSIGSigners")
+			out["shape_anchor_gate_"+name] = gate != 0 && first != 0 && gate < first
+		case "verifyDNSSEC":
+			// the signer's own DNSKEY response is checked with the DS-anchored keys:
+			// VerifyDSAnchoredWithWork is called, and its first result is what VerifyRRSIGWithWork receives
+			anch := posOfCall(fd.Body, "VerifyDSAnchoredWithWork")
+			ok := anch != 0
+			var keysVar string
+			ast.Inspect(fd.Body, func(x ast.Node) bool {
+				as, isAs := x.(*ast.AssignStmt)
+				if !isAs || len(as.Rhs) != 1 || posOfCall(as.Rhs[0], "VerifyDSAnchoredWithWork") == 0 || len(as.Lhs) < 1 {
+					return true
+				}
+				if id, isId := as.Lhs[0].(*ast.Ident); isId {
+					keysVar = id.Name
+				}
+				return true
+			})
+			used := false
+			ast.Inspect(fd.Body, func(x ast.Node) bool {
+				c, isC := x.(*ast.CallExpr)
+				if !isC {
+					return true
+				}
+				if s, isS := c.Fun.(*ast.SelectorExpr); isS && s.Sel.Name == "VerifyRRSIGWithWork" && len(c.Args) >= 2 {
+					if id, isId := c.Args[1].(*ast.Ident); isId && keysVar != "" && id.Name == keysVar {
+						used = true
+					}
+				}
+				return true
+			})
+			out["shape_verifydnssec_anchors_own_dnskey_rrset"] = ok && used
 		}
 	}
+}
+
+func facts() map[string]any {
+	checkPairs()
+	out := map[string]any{}
+	var algs, digests []int
+	for i := 0; i < 256; i++ {
+		if dnssec.IsSupportedDNSKEYAlgorithm(uint8(i)) {
+			algs = append(algs, i)
+		}
+		if dnssec.IsSupportedDSDigest(uint8(i)) {
+			digests = append(digests, i)
+		}
+	}
+	out["dnskey_algs_supported"] = algs
+	out["ds_digests_supported"] = digests
+	var codes []int
+	for _, c := range errOrder {
+		code, _ := dnsutil.ErrorToEDE(errValue(c))
+		codes = append(codes, int(code))
+	}
+	out["ede_codes"] = codes
+	out["err_classes"] = errOrder
+	out["rcode_servfail"] = dns.RcodeServerFailure
+	out["zone_flag"] = dns.ZONE
+	shapeFacts(out)
+	return out
+}
+
+func main() {
+	checkPairs()
+	if len(os.Args) > 1 && os.Args[1] == "findpairs" {
+		findPairs()
+		return
+	}
+	vlib.Main(&vlib.Driver{Facts: facts, Exec: exec, Gen: gen})
 }
